@@ -6,8 +6,12 @@ source for the real library, `run_impl` executes it and records the observables,
 the same scenario and the recorded observables as a Gallina literal for Run/EngineRun.v.
 """
 import asyncio
+import logging
 import sys
 import warnings
+
+# "Task exception was never retrieved" is expected noise when a sibling coroutine callback raises
+logging.getLogger("asyncio").setLevel(logging.CRITICAL)
 
 POOL = ["go", "go_back", "g", "run", "run_2", "tick", "t", "loop"]
 
